@@ -123,12 +123,25 @@ def r92(facts, res):
         if p.end[0] != 'return':
             continue
         emp = [v for c, v in p.conds if is_call(c, 'is_empty')]
+        # `[] =>` / `len() == 0`
+        for c, v in p.conds:
+            if c[0] == 'bin' and c[1] in ('Eq', 'Ne') and isinstance(v, int) and (c[2] == ('const', 0) or c[3] == ('const', 0)) \
+                    and term_has(c, lambda x: isinstance(x, tuple) and x and (x[0] == 'len' or is_call(x, 'len'))):
+                emp.append(v if c[1] == 'Eq' else 1 - v)
         r = p.end[1]
         if emp == [1]:
             neg = r[0] == 'un' and r[1] == 'Not' and term_has(r, lambda x: isinstance(x, tuple) and len(x) > 3 and x[0] == 'field' and x[3] == 'exclusive')
             rows['no-states'] = neg
         elif emp == [0]:
             rows['states'] = is_call(r, 'contains') and term_has(r, lambda x: isinstance(x, tuple) and len(x) > 3 and x[0] == 'field' and x[3] == 'id')
+            if not rows['states'] and is_call(r, 'any') and len(r[2]) == 2 and strip_ref(r[2][1])[0] == 'closure':
+                # ids.iter().any(|id| state.id == *id): the predicate compares the element with the state's id
+                cb = facts.bodies.get(strip_ref(r[2][1])[1])
+                cps = [q for q in Walker(cb, facts, max_paths=8).run() if q.end[0] == 'return'] if cb is not None else []
+                if len(cps) == 1:
+                    e = cps[0].end[1]
+                    rows['states'] = e[0] == 'bin' and e[1] == 'Eq' and any(term_has(x, lambda y: isinstance(y, tuple) and len(y) > 3 and y[0] == 'field' and y[3] == 'id') for x in (e[2], e[3])) \
+                        and any(term_has(x, lambda y: y == ('param', 2)) and not term_has(x, lambda y: isinstance(y, tuple) and len(y) > 3 and y[0] == 'field' and y[3] == 'id') for x in (e[2], e[3]))
     if rows.get('no-states') and rows.get('states'):
         res.ok(R, 'applicability', loc_of(b), 'unqualified rule: active iff the state is not exclusive; qualified rule: active iff its list contains the state id')
     else:
